@@ -13,6 +13,7 @@ import (
 	"regexp"
 	"runtime"
 	"sync"
+	"sync/atomic"
 	"time"
 
 	"github.com/whoisnian/glb/logger"
@@ -69,6 +70,46 @@ func Apply(h logger.Handler, chain []Step) logger.Handler {
 }
 
 var FixedTime = time.Date(2024, 2, 3, 4, 5, 6, 789000000, time.UTC)
+
+// Times: record times in the SAME Unix second and in the adjacent seconds, in several locations with different offsets
+// (a relay / aggregator hands records stamped elsewhere to Handler.Handle): the line must show the record's own wall clock.
+var Times = func() []time.Time {
+	locs := []*time.Location{time.UTC, time.FixedZone("IST", 5*3600+1800), time.FixedZone("PST", -8*3600), time.FixedZone("LINT", 14*3600),
+		time.FixedZone("CET", 3600), time.FixedZone("", -(3*3600 + 1800)), time.FixedZone("NPT", 5*3600+2700)}
+	var ts []time.Time
+	for _, d := range []time.Duration{0, 0, time.Second, -time.Second} {
+		for _, l := range locs {
+			ts = append(ts, FixedTime.Add(d).In(l))
+		}
+	}
+	return ts
+}()
+
+// TimeAt picks one of Times; index 0 is FixedTime in UTC.
+func TimeAt(i int) time.Time {
+	if i < 0 {
+		i = -i
+	}
+	return Times[i%len(Times)]
+}
+
+// NewRecordAt is NewRecordPC with an explicit time.
+func NewRecordAt(t time.Time, level slog.Level, msg string, pc uintptr, attrs ...slog.Attr) slog.Record {
+	r := slog.NewRecord(t, level, msg, pc)
+	r.AddAttrs(attrs...)
+	return r
+}
+
+var coldSeq atomic.Int64
+
+// Cold makes sure that h (meant to be a FRESH root handler used for a reference line) renders its next record from a cold
+// state: it handles one record stamped with a second no test record uses, so that any cache keyed on the record's time -
+// per handler family or package-level - misses. The caller discards what this wrote.
+func Cold(h logger.Handler) {
+	defer func() { recover() }()
+	t := time.Unix(1_000_000_000+coldSeq.Add(1), 0).In(time.FixedZone("COLD", -(11*3600 + 600)))
+	h.Handle(context.Background(), slog.NewRecord(t, slog.Level(100), "cold", 0))
+}
 
 func NewRecord(level slog.Level, msg string, attrs ...slog.Attr) slog.Record {
 	r := slog.NewRecord(FixedTime, level, msg, 0)
@@ -151,7 +192,10 @@ func Handle(h logger.Handler, r slog.Record) (err error) {
 // rebuilt from chain on a fresh root. ok=false when that is not exactly one Write.
 func Solo(k Kind, level slog.Level, chain []Step, rec slog.Record) (line []byte, ok bool) {
 	var c Capture
-	h := Apply(NewHandler(k, &c, level), chain)
+	root := NewHandler(k, &c, level)
+	Cold(root)
+	c.Take()
+	h := Apply(root, chain)
 	if err := Handle(h, rec); err != nil {
 		return []byte("ERR " + err.Error()), false
 	}
